@@ -13,7 +13,7 @@ from ._pairs import compare_tables, compare_all, executed_rows, table_state_keys
 
 PID = "C14"
 LEVEL = "model_checking"
-WITNESSES = ["cut_day_compared", "cut_in_season", "cut_changes_future", "extra_rows_pair", "end_extension_pair", "extension_adds_season", "thermal_crop_pair", "extension_with_off_season", "seasons_of_unequal_thermal_length", "season_expected_from_the_configuration"]
+WITNESSES = ["cut_day_compared", "cut_in_season", "cut_changes_future", "extra_rows_pair", "end_extension_pair", "extension_adds_season", "thermal_crop_pair", "extension_with_off_season", "seasons_of_unequal_thermal_length", "season_expected_from_the_configuration", "end_just_after_a_short_last_thermal_season"]
 NONTRIVIAL = ["cut_changes_future", "extra_rows_pair", "end_extension_pair"]
 
 CUT_CONFIGS = {
@@ -95,6 +95,11 @@ def scenarios(tier, seed=0):
     for name in (["MaizeGDD", "WheatGDD"] if q else [n for n in allnames if n.endswith("GDD")][::2]):
         for ext in (365, 730):
             yield {"kind": "extend", "name": name, "ext": ext, "end": "2002/12/30", "word": "warm", "blocks": [[365, 730, "WL"]]}
+    # a thermal crop whose LAST season is warmer (matures sooner) than its first, with the end date a few days after that last maturity:
+    # nothing of the first season's calendar may survive into the last one
+    for name in (["MaizeGDD"] if q else ["MaizeGDD", "SorghumGDD", "TomatoGDD"]):
+        for k in (1, 2, 4, 8):
+            yield {"kind": "extend", "name": name, "ext": 500, "word": "coolnights", "blocks": [[365, 800, "hot"]], "end_after_last_maturity": k}
     # ... also with time series other than weather that reach beyond the original end date (water-table observations, dated schedule)
     for name in (["Maize", "Wheat", "PotatoGDD"] if q else allnames[::2]):
         for ext in ([365] if q else [30, 365]):
@@ -188,6 +193,21 @@ def run(scn):
         if scn.get("blocks"):
             spec["weather"]["blocks"] = scn["blocks"]
             hit("seasons_of_unequal_thermal_length")
+        if scn.get("end_after_last_maturity") is not None:
+            # end date = k days after the day the SECOND season reaches its thermal maturity (independent degree-day model)
+            from aquacrop.entities.crops.crop_params import crop_params
+            from ..refmodels import ref_gdd
+
+            cp = crop_params[scn["name"]]
+            spec["end"] = "2003/04/20"
+            wdf = S.make_weather(spec).set_index("Date")
+            d0, cum, L2 = dt.datetime(2002, 5, 1), 0.0, 0
+            while cum <= float(cp["Maturity"]):
+                rec = wdf.loc[d0 + dt.timedelta(days=L2)]
+                cum += ref_gdd(int(cp["GDDmethod"]), float(cp["Tupp"]), float(cp["Tbase"]), float(rec["MaxTemp"]), float(rec["MinTemp"]))
+                L2 += 1
+            spec["end"] = A._f(d0 + dt.timedelta(days=L2 + int(scn["end_after_last_maturity"])))
+            hit("end_just_after_a_short_last_thermal_season")
         if scn.get("off"):
             hit("extension_with_off_season")
         if scn.get("gw"):
